@@ -45,9 +45,22 @@ def _unbox(v):
     return v
 
 
+POISON = 7777.25  # a record value for which every gated quantity function fails - a *pure* failure, decided by the argument
+
+
+def _poisoned(v):
+    if isinstance(v, float):
+        return v == POISON
+    if isinstance(v, np.ndarray) and v.dtype.kind == "f":
+        return bool((v == POISON).any())
+    return False
+
+
 def _gate(node, v):
     st = STATE
     st.calls += 1
+    if _poisoned(_unbox(v)):
+        raise InjectedFault("poisoned value reached node %d" % node)
     mode = st.armed.get(node)
     if mode is not None:
         st.fired.append((node, mode))
